@@ -15,7 +15,7 @@ struct mstate { int mode; uint8_t *failkey; size_t lfk; long calls; };
 extern void vf_merge_union(void *, const uint8_t *, size_t, const uint8_t *, size_t, const uint8_t *, size_t, uint8_t **, size_t *);
 extern int iter_next_op(struct obj *o);
 
-struct saux { struct mstate st; struct mtbl_threadpool *tp; char tmpdir[300]; char realdir[320]; int mk0; };
+struct saux { struct mstate st; struct mtbl_threadpool *tp; char tmpdir[300]; char realdir[320]; int mk0; int gone; };
 
 static int count_dir(const char *d)
 {
@@ -68,6 +68,17 @@ int ops_sorter(char **args, int na)
 		if (late) mkdir(a->tmpdir, 0700);
 		puts("ok"); return 0;
 	}
+	if (!strcmp(op, "s.vanish") && na == 2) {
+		/* the configured temporary directory disappears after the sorter has been set up (removed, renamed away, unmounted):
+		 * from now on a spill has nowhere to go — the library stops (assert on the mkstemp result); it must not put the
+		 * chunk anywhere else */
+		struct obj *o = getobj(args[1], K_SORTER); if (!o) return -1;
+		struct saux *a = o->aux;
+		if (a->realdir[0]) { unlink(a->tmpdir); rmdir(a->realdir); }
+		else rmdir(a->tmpdir);
+		a->gone = 1;
+		puts("ok"); return 0;
+	}
 	if (!strcmp(op, "s.add") && na == 4) {
 		struct obj *o = getobj(args[1], K_SORTER); if (!o) return -1;
 		uint8_t *k, *v; size_t kl, vl; if (unhex(args[2], &k, &kl) || unhex(args[3], &v, &vl)) return -1;
@@ -92,7 +103,7 @@ int ops_sorter(char **args, int na)
 		char want[400]; snprintf(want, sizeof want, "%s/.mtbl.%ld.XXXXXX", a->tmpdir, (long)getpid());
 		for (int i = a->mk0; i < vf_mkstemp_n && i < VF_MAXTMPL; i++) if (strcmp(vf_mkstemp_templates[i], want)) okt = 0;
 		/* the directory part is harness-specific: report the template relative to the configured directory */
-		printf("spills %d tmpl=%s leftover=%d\n", n, okt ? "DIR/.mtbl.PID.XXXXXX" : vf_mkstemp_templates[a->mk0 < VF_MAXTMPL ? a->mk0 : 0], count_dir(a->tmpdir));
+		printf("spills %d tmpl=%s leftover=%d\n", n, okt ? "DIR/.mtbl.PID.XXXXXX" : vf_mkstemp_templates[a->mk0 < VF_MAXTMPL ? a->mk0 : 0], a->gone ? 0 : count_dir(a->tmpdir));
 		return 0;
 	}
 	if (!strcmp(op, "s.destroy") && na == 2) {
